@@ -87,6 +87,32 @@ func finite(f *type1.Font) bool {
 		ok(f.Private.BlueScale) && ok(f.Private.StdHW) && ok(f.Private.StdVW)
 }
 
+// beyondFormat reports whether some glyph of f has two consecutive points (the
+// first one counted from the origin) more than the 32-bit range apart in a
+// coordinate, or such a width: a charstring command takes its operands as
+// 32-bit numbers (or quotients of two), so no charstring with the same
+// commands can say that - the value lies outside the format, not only
+// outside the writer.  (Damaged inputs reach such values by adding a side
+// bearing of -2^31 to ordinary coordinates.)
+func beyondFormat(f *type1.Font) bool {
+	far := func(d float64) bool { return d > math.MaxInt32 || d < math.MinInt32 }
+	for _, g := range f.Glyphs {
+		if far(g.WidthX) || far(g.WidthY) {
+			return true
+		}
+		x, y := 0.0, 0.0
+		for _, c := range g.Cmds {
+			for i := 0; i+1 < len(c.Args); i += 2 {
+				if far(c.Args[i]-x) || far(c.Args[i+1]-y) {
+					return true
+				}
+				x, y = c.Args[i], c.Args[i+1]
+			}
+		}
+	}
+	return false
+}
+
 // excluded reports whether F1 falls into the input class of a listed finding.
 func excluded(f *type1.Font, ex exclusions) string {
 	if ex.shadow {
@@ -137,6 +163,9 @@ func check(c *c10case, ex exclusions) (string, string) {
 	}
 	if why := excluded(f1, ex); why != "" {
 		return "", why
+	}
+	if beyondFormat(f1) {
+		return "", "outside the charstring format: a coordinate step or width beyond the 32-bit range"
 	}
 	for _, format := range formats {
 		f2, msg := writeRead(f1, format)
@@ -288,7 +317,7 @@ func TestP1Independent(t *testing.T) {
 func TestP4Damaged(t *testing.T) {
 	rec := ev.New("C10", "damaged")
 	defer rec.Finish(t)
-	rec.Rule("inputs: the structure-aware damaged fonts of the C01 generators (random charstrings over all commands, composites that name themselves, each other, missing or damaged components - with and without an outline of their own before seac -, glyphs holding half of a flex / othersubr / hint-replacement sequence, wrong-typed dictionary entries, odd lenIV ...) in all containers. Most are rejected (counted and discarded); every font the reader accepts (with finite numbers) goes through the cycles of the independent part: F2=Read(Write(F1)) equal to F1 up to the documented quantisation in each format, F3=Read(Write(F2)) deep-equal to F2. Non-trivial: the input was accepted; distinct by input bytes.")
+	rec.Rule("inputs: the structure-aware damaged fonts of the C01 generators (random charstrings over all commands, composites that name themselves, each other, missing or damaged components - with and without an outline of their own before seac -, glyphs holding half of a flex / othersubr / hint-replacement sequence, wrong-typed dictionary entries, odd lenIV ...) in all containers. Most are rejected (counted and discarded); every font the reader accepts (with finite numbers, and without coordinate steps beyond the 32-bit range, which no charstring can express - counted) goes through the cycles of the independent part: F2=Read(Write(F1)) equal to F1 up to the documented quantisation in each format, F3=Read(Write(F2)) deep-equal to F2. Non-trivial: the input was accepted; distinct by input bytes.")
 	ex := findings(rec)
 	ev.SetupRapid(6000, 160000)
 	rapid.Check(t, func(t *rapid.T) {
